@@ -33,6 +33,7 @@ BOUNDS = {"quick": {"corpus": "K09", "offset_step": 5}, "thorough": {"corpus": "
 
 K09 = [
     Skeleton("p03_keyword_to_kwargs", {"main.py": "def make({0}, *rest, **opts):\n    return ({0}, rest, sorted(opts))\nclass kls:\n    def run(self, {1}):\n        {2} = {1} * 2\n        return make({1}, {2}={2}, {3}=1)\nprint(kls().run(2))\n", "dest.py": "zz = 0\n"}),
+    Skeleton("p05_global_only_binding", {"main.py": "def setup({0}):\n    global {1}\n    {1} = {0}\nsetup(2)\nprint({1})\n", "dest.py": "zz = 0\n"}),
     Skeleton("p01_mixed", {"main.py": "import os\n{0} = 1\nclass kls:\n    {1} = 2\n    def meth(self, {2}=3):\n        {3} = self.{1} + {2}\n        return {3}  # c\ndef fun({2}):\n    return '{0}' + str({2})\nprint(fun({0}), kls().meth())\n", "dest.py": "zz = 0\n"}),
 ]
 
